@@ -91,6 +91,26 @@ func TestVerifC12(t *testing.T) {
 		}
 	})
 
+	// a roaring import whose payload is a completely full 65536-column block of one row, landing on a
+	// partly filled block of a cached row (the row's only changed container)
+	r.Cases("fullblock", r.N(48, 1920), func(i int, id string, rng *vk.Rand) {
+		cfg := vfGenCfg(rng, []string{"set"}, []string{CacheTypeRanked, CacheTypeLRU}, 5)
+		cfg.MaxOpN = 10000
+		row, block := uint64(rng.Intn(3)), uint64(rng.Intn(2))
+		var h []vfOp
+		for k := 0; k < 1+rng.Intn(5); k++ {
+			h = append(h, vfOp{K: "setBit", Row: row, Col: block*65536 + uint64(rng.Intn(65536))})
+		}
+		h = append(h, vfOp{K: "setBit", Row: row + 1, Col: 3}, vfOp{K: "setBit", Row: row + 1, Col: 70000}, vfOp{K: "top", Rows: []uint64{row, row + 1}, Enc: "plain"})
+		full := vfOp{K: "importRoaring", Enc: []string{"pilosa", "pilosa-opt", "official", "official-run"}[rng.Intn(4)]}
+		for c := uint64(0); c < 65536; c++ {
+			full.Rows = append(full.Rows, row)
+			full.Cols = append(full.Cols, block*65536+c)
+		}
+		h = append(h, full, vfOp{K: "top", Rows: []uint64{row, row + 1}, Enc: "plain"}, vfOp{K: "recalc"}, vfOp{K: "top", Rows: []uint64{row, row + 1, row + 2}, Enc: "plain"})
+		run(id, cfg, h)
+	})
+
 	n := r.N(10000, 400000)
 	r.Cases("hist", n, func(i int, id string, rng *vk.Rand) {
 		cfg := vfGenCfg(rng, []string{"set", "set", "mutex"}, []string{CacheTypeRanked, CacheTypeLRU}, 5) // mutex fragments: a write to one row changes another row's count
